@@ -16,7 +16,7 @@ def run(tier):
         "designates nothing and must not raise); a rule of another operation kind contributes nothing",
         "symbol ids and state ids are disjoint; operands of one statement occupy distinct positions",
     ]
-    r.outside += ["program-level justification of reported flows (Engine T leg)", "object_call_stmt position shifting",
+    r.outside += ["program-level justification of reported flows (Engine T leg)",
                   "*_from_code.yaml rule sets"]
     b = xrun.Batch(r)
     if tier == "quick":
@@ -33,10 +33,14 @@ def run(tier):
     h = importlib.import_module(tc.M)
     b.add("get_sink_tag_by_rules: tag only from the designated operand positions", tc.M, "check_sink_positions",
           slices=[dict(t0=[t], op=[0], t1=([-1, 0, 6, 8] if tier == "quick" else None)) for t in range(len(h.TARGETS))]
-          + [dict(t0=[0, 6, 7], op=[1], t1=[-1, 0])],
+          + [dict(t0=[0, 6, 7], op=[1], t1=[-1, 0])]
+          + [dict(t0=[t], op=[2], t1=[-1, 0, 1, 5]) for t in (0, 1, 5, 6)],
           pct=300 if tier == "quick" else 1500, ppt=30,
           bounds={"operands": "positions 0..2 absent / clean / tainted", "targets": [str(t) for t in h.TARGETS],
-                  "targets_per_rule": "1..2", "rule operation": "call_stmt / field_write"})
+                  "targets_per_rule": "1..2", "rule operation": "call_stmt / field_write / object_call (receiver at 0, arguments from 2)"})
+    b.add("propagate_taint vs least fixpoint on the 2-symbol / 3-state template (state inclusion hierarchies)", tc.M,
+          "check_propagation", slices=tc.template_slices("sound"), pct=400 if tier == "quick" else 1500, ppt=30,
+          bounds=tc.TEMPLATE_BOUNDS)
     b.execute()
     r.add_sample({"call": "sink(a1, a2)", "rule": {"operation": "call_stmt", "name": "sink", "target": ["\\%arg1"]},
                   "tainted": ["a1"], "expected_sink_tag": 0})
